@@ -34,6 +34,8 @@ import numpy as np
 
 MAIN = -1
 HANG_S = 60.0
+SOFT_S = 2.0      # silence of a running actor after which the others may go on (see SessionRun.settle);
+SOFT_AGAIN_S = 0.4  # ... once that has happened in a session (unobserved blocking is known to exist)
 
 
 class Hang(Exception):
@@ -151,11 +153,15 @@ class LockW:
         self.real, self.name = real, name
 
     def acquire(self, *a, **k):
+        blocking = k.get("block", k.get("blocking", a[0] if a else True))
+        timeout = k.get("timeout", a[1] if len(a) > 1 else None)
         info = None
         while True:
             _yield("acq_" + self.name, info)
             if self.real.acquire(False):
                 return True
+            if not blocking or (timeout is not None and timeout <= 0):
+                return False                 # a non-blocking attempt of the code under test stays one
             info = "retry"
 
     def release(self):
@@ -299,8 +305,12 @@ class Wrappers:
 
         pa.open = open_w
         ps.open = open_w
-        pa.filelock = LockW(fresh_like(pa.filelock), "file")
-        pa.inevalfilelock = LockW(fresh_like(pa.inevalfilelock), "eval")
+        # every module-level lock of the module under test (the shipped one has two)
+        import multiprocessing.synchronize as ms
+        lock_types = (ms.Lock, ms.RLock, type(threading.Lock()), type(threading.RLock()))
+        for attr, val in list(vars(pa).items()):
+            if isinstance(val, lock_types):
+                setattr(pa, attr, LockW(fresh_like(val), {"filelock": "file", "inevalfilelock": "eval"}.get(attr, attr)))
 
         class OsW:
             def __getattr__(self, k):
@@ -454,8 +464,11 @@ class SessionRun:
         self.pending: dict[int, tuple] = {}
         self.status: dict[int, str] = {}
         self.snaps: list[dict] = []
-        self.lock_owner = {"eval": None, "file": None}
-        self.lock_epoch = {"eval": 0, "file": 0}
+        import collections
+        # by lock name; "eval" and "file" are the two the shipped module has, any other module-level
+        # lock of the module under test gets its attribute name
+        self.lock_owner = collections.defaultdict(lambda: None, {"eval": None, "file": None})
+        self.lock_epoch = collections.defaultdict(int, {"eval": 0, "file": 0})
         self.probe_locks = scn.workers == "processes"
         self.probed: set = set()
         self.pids: dict[int, int] = {}
@@ -464,16 +477,48 @@ class SessionRun:
         self.events: list[dict] = []
         self.killed = False
         self.main_error = None
+        self.stuck_events = 0
         self.settle()
 
     # -- message pump ------------------------------------------------------------------
-    def settle(self):
+    def settle(self, stuck_wait=None):
+        """pump messages until no actor is running.  An actor that stays silent for SOFT_S while some
+        other actor could be granted a step is marked "stuck": it is (presumably) waiting inside a
+        blocking primitive the wrappers do not see (a lock kept somewhere else than in a module-level
+        name, a file lock, ...).  The others go on - they may be what it is waiting for -, its next
+        message is picked up whenever it comes; only when nobody can move is silence a hang."""
         t0 = time.time()
-        while any(s == "running" for s in self.state.values()):
-            running = [self.pconn[a] for a, s in self.state.items() if s == "running"]
-            ready = conn_wait(running, timeout=HANG_S)
+        while True:
+            running = [a for a, s in self.state.items() if s == "running"]
+            stuck = [a for a, s in self.state.items() if s == "stuck"]
+            if not running and not (stuck and stuck_wait):
+                if stuck:
+                    self._pump(conn_wait([self.pconn[a] for a in stuck], timeout=0))
+                return
+            elsewhere = bool(self._grantable())
+            tmo = stuck_wait if not running else ((SOFT_AGAIN_S if self.stuck_events else SOFT_S) if elsewhere else HANG_S)
+            ready = conn_wait([self.pconn[a] for a in running + stuck], timeout=tmo)
             if not ready:
-                raise Hang(f"no message from running actors {[a for a, s in self.state.items() if s == 'running']} within {HANG_S}s")
+                if running and elsewhere:
+                    for a in running:
+                        self.state[a] = "stuck"
+                    self.stuck_events += 1
+                    return
+                if running:
+                    raise Hang(f"no message from running actors {running} within {HANG_S}s")
+                return                                   # waited for the stuck ones in vain
+            self._pump(ready)
+            if stuck_wait and not running:
+                return
+            if time.time() - t0 > 4 * HANG_S:
+                raise Hang("session does not settle")
+
+    def _grantable(self):
+        return [a for a, (op, _) in self.pending.items() if self.state.get(a) == "blocked"
+                and not (op.startswith("acq_") and self.lock_owner[op[4:]] is not None)]
+
+    def _pump(self, ready):
+        if True:
             for c in ready:
                 a = next(k for k, v in self.pconn.items() if v is c)
                 try:
@@ -506,8 +551,6 @@ class SessionRun:
                             self.state[MAIN] = "running"
                 elif msg[0] == "over":
                     self.state[MAIN] = "over"
-            if time.time() - t0 > 4 * HANG_S:
-                raise Hang("session does not settle")
 
     # -- scheduling ----------------------------------------------------------------------
     def enabled(self):
@@ -515,13 +558,22 @@ class SessionRun:
         for a, (op, _) in sorted(self.pending.items()):
             if self.state[a] != "blocked":
                 continue
-            if op in ("acq_eval", "acq_file") and self.lock_owner[op[4:]] is not None:
+            if op.startswith("acq_") and self.lock_owner[op[4:]] is not None:
                 # the lock is believed to be held: the attempt may still be granted once per holding
                 # period (probe): the real lock must refuse it
                 key = (a, op, self.lock_epoch[op[4:]])
                 if not self.probe_locks or key in self.probed:
                     continue
             out.append(a)
+        if not out and any(s == "stuck" for s in self.state.values()) and not getattr(self, "_waiting_stuck", False):
+            # nobody can be granted a step, but some actors are inside an unobserved blocking call:
+            # give them the time a hang needs to be one
+            self._waiting_stuck = True
+            try:
+                self.settle(stuck_wait=HANG_S)
+            finally:
+                self._waiting_stuck = False
+            return self.enabled()
         return out
 
     def finished(self):
